@@ -599,6 +599,8 @@ def rx_prog_key(fam, p, out, rec_i, fld_i, part):
     for vb in p["chain"]:
         if vb["v"] == "rename" and vb["g"] and rx_has_ref(vb["a"]):
             key["rename_g_with_reference"] = True
+        if vb["v"] in ("sub", "gsub", "ssub") and vb["m"] == "r":
+            key["sub_verb_option_r"] = True
     return key
 
 
@@ -1046,7 +1048,7 @@ def run(tier, seed):
         cov["distinct_nontrivial"] += nnt
         cov["rule"] += ("; regex section: every pattern of RegexCases.tla at level %d (%d patterns: single items, pairs, triples, anchored, "
                         "alternations, one-level groups, escapes) x every subject of its alphabet (a A b 1 and a 2-byte character, up to "
-                        "%d characters) x case-sensitive / case-insensitive x 5 spellings of the regex x 12 results (sub, gsub with and "
+                        "%d characters) x case-sensitive / case-insensitive x the spellings of the regex (\"P\", \"P\"i, \"(?i)P\", a field holding P or (?i)P, a variable holding P) x 12 results (sub, gsub with and "
                         "without references, regextract, regextract_or_else, strmatch, strmatchx, =~, !=~ and the captures after them), "
                         "plus %d programs with several regex operations in one process (one process each); non-trivial = the subject "
                         "contains an upper-case letter or a multi-byte character (call family), every constrained program"
@@ -1063,7 +1065,17 @@ def replay(path):
         v = json.load(f)
     print(json.dumps(v, indent=1, ensure_ascii=False))
     d = v.get("detail", {})
-    if "row" in d and "expression" in d:
+    rmlr = os.environ.get("VERIF_C15_MLR") or None
+    if "argv" in d and "stdin" in d:            # a program of the regex section
+        c = {"argv": [rmlr or vlib.build_mlr()] + d["argv"], "stdin": d["stdin"], "env": ENV, "timeout_ms": 20000}
+        r = vlib.run_cases([c])[0]
+        print("now: exit=%s stdout=%r stderr=%r" % (r["exit"], r["stdout"], r["stderr"][:300]))
+    elif "program" in d and "row" in d:         # one evaluation of the regex section
+        c = {"argv": [rmlr or vlib.build_mlr(), "--ijsonl", "put", "-q", d["program"]], "stdin": json.dumps(d["row"], ensure_ascii=False) + "\n",
+             "env": ENV, "timeout_ms": 20000}
+        r = vlib.run_cases([c])[0]
+        print("now: exit=%s stdout=%r stderr=%r" % (r["exit"], r["stdout"], r["stderr"][:300]))
+    elif "row" in d and "expression" in d:
         mlr = vlib.build_mlr()
         fn = d["case"]["f"]
         r = vlib.run_cases([mlr_case(mlr, fn, [d["row"]], expr=d["expression"])])[0]
